@@ -38,6 +38,7 @@ CONSTANTS Methods, Versions, Inms,      \* configurations explored
           HdrVals, ClVals,              \* digit values for X-A / explicit Content-Length
           ChunkIds,                     \* chunks offered to write / finish
           MaxBody, MaxHdr,              \* state constraint only
+          InmVersions,                  \* versions for which the If-None-Match variants are explored
           Prune                         \* TRUE: Next omits calls that cannot change the obligation any more
                                         \* (status / header calls after the commit); FALSE for generation
 
@@ -70,7 +71,9 @@ InitWith(c) ==
     /\ outcome = "open"    \* "open" | "complete" | "error" | "aborted"
     /\ step = [act |-> "init", args |-> <<>>, exp |-> [raised |-> FALSE]]
 
-Cfgs == {c \in [method : Methods, version : Versions, inm : Inms] : c.method = "POST" => c.inm = "absent"}
+Cfgs == {c \in [method : Methods, version : Versions, inm : Inms] :
+            /\ c.method = "POST" => c.inm = "absent"
+            /\ c.inm # "absent" => c.version \in InmVersions}
 InitState == \E c \in Cfgs : InitWith(c)
 
 Running == run = "running"
